@@ -11,9 +11,9 @@ open Gts.Pars
 /-- the printed location is read back by `ParseLocation` in front of a line feed, and does not
 start with white space (it starts with a digit, `<`, `j`, `o` or `c`) -/
 structure LocRT (l : Loc) : Prop where
-  first : ∃ c r, bs l.print = c :: r ∧ isSpace c = false
+  first : ∃ c r, l.printB = c :: r ∧ isSpace c = false
   parse : ∀ (more : Bytes) (stk : List Bytes),
-    location ⟨bs l.print ++ 10 :: more, stk⟩ = (.ok l, ⟨10 :: more, stk⟩)
+    location ⟨l.printB ++ 10 :: more, stk⟩ = (.ok l, ⟨10 :: more, stk⟩)
 
 theorem blanks_ok (n : Nat) (r : Bytes) (stk : List Bytes) :
     blanks n ⟨sp n ++ r, stk⟩ = (.ok (), ⟨r, stk⟩) := by
@@ -38,7 +38,7 @@ theorem sp_head_not_snake (n : Nat) (r : Bytes) (hn : 0 < n) :
 
 /-- the text of one key line behind the column layout -/
 def keylineText (key : Bytes) (l : Loc) (more : Bytes) : Bytes :=
-  sp 5 ++ (key ++ (sp (16 - key.length) ++ (bs l.print ++ 10 :: more)))
+  sp 5 ++ (key ++ (sp (16 - key.length) ++ (l.printB ++ 10 :: more)))
 
 theorem keyline_ok (key : Bytes) (l : Loc) (more : Bytes) (stk : List Bytes) (hk : keyOk key = true)
     (hl : LocRT l) :
@@ -47,7 +47,7 @@ theorem keyline_ok (key : Bytes) (l : Loc) (more : Bytes) (stk : List Bytes) (hk
   obtain ⟨hn, hlen⟩ := hk
   have hn' := hn
   simp only [nameOk, Bool.and_eq_true, Bool.not_eq_true', List.isEmpty_eq_false_iff] at hn'
-  have hw := fun s => word_ok isSnake key (sp (16 - key.length) ++ (bs l.print ++ 10 :: more)) s hn'.2 hn'.1
+  have hw := fun s => word_ok isSnake key (sp (16 - key.length) ++ (l.printB ++ 10 :: more)) s hn'.2 hn'.1
     (sp_head_not_snake _ _ (by omega))
   have hb : 21 - (5 + key.length) = 16 - key.length := by omega
   gsimp [keyline, keylineText, lit_ok, hw, hb, blanks_ok, hl.parse, eol_lf]
@@ -69,13 +69,13 @@ theorem firstKeyline_ok (key : Bytes) (l : Loc) (more : Bytes) (stk : List Bytes
     | cons c k' => exact ⟨c, k', rfl⟩
   have hc0 : isSnake c0 = true := by
     have := hn'.2; rw [hk0] at this; simp only [List.all_cons, Bool.and_eq_true] at this; exact this.1
-  have hs1 := fun s => spaces_ok (sp 5) (key ++ (sp (16 - key.length) ++ (bs l.print ++ 10 :: more))) s
+  have hs1 := fun s => spaces_ok (sp 5) (key ++ (sp (16 - key.length) ++ (l.printB ++ 10 :: more))) s
     (sp_all_space 5) (by
       intro c hc; rw [hk0] at hc; simp at hc; subst hc; exact snake_not_space _ hc0)
-  have hw := fun s => word_ok isSnake key (sp (16 - key.length) ++ (bs l.print ++ 10 :: more)) s hn'.2 hn'.1
+  have hw := fun s => word_ok isSnake key (sp (16 - key.length) ++ (l.printB ++ 10 :: more)) s hn'.2 hn'.1
     (sp_head_not_snake _ _ (by omega))
   obtain ⟨c1, r1, hp1, hp2⟩ := hl.first
-  have hs2 := fun s => spaces_ok (sp (16 - key.length)) (bs l.print ++ 10 :: more) s (sp_all_space _) (by
+  have hs2 := fun s => spaces_ok (sp (16 - key.length)) (l.printB ++ 10 :: more) s (sp_all_space _) (by
     intro c hc; rw [hp1] at hc; simp at hc; subst hc; exact hp2)
   gsimp [firstKeyline, keylineText, hs1, hw, hs2, hl.parse, eol_lf, sp_length]
 
